@@ -327,7 +327,11 @@ def run(ctx):
                 "verifier": None if a["challenge"] is None else V1}
         devs_ = [dict(good)]
         for field, vals in (("cred", [["basic", "c1", "bad"], CRED["c2"] if a["client"] != "c2" else CRED["c1"], None, ["none", a["client"]]]),
-                            ("redirect", [None, "https://c1.example/cb", "https://c1.example/cb2"]),
+                            ("redirect", [None, "https://c1.example/cb", "https://c1.example/cb2"] +
+                             # look-alikes of the URI the code was issued for: the comparison is on the identical string
+                             ([a["redirect"] + t for t in ("#x", "#", "/", "?", "?a=b", "%20", " ")] +
+                              [a["redirect"].replace("https://", "HTTPS://"), a["redirect"].replace(".example", ".EXAMPLE"),
+                               a["redirect"].replace(".example", ".example:443"), a["redirect"][:-1]] if a["redirect"] else [])),
                             ("verifier", [None, V1, V2, V1 + "\n", "x" * 42]), ("code", [1, None, 7])):
             for v in vals:
                 devs_.append(dict(good, **{field: v}))
